@@ -250,6 +250,78 @@ func genDVZero(rng *hx.Rng) string {
 		joinInts(inits), m, strings.Join(ws, ","))
 }
 
+// stress ctorrace <fn> <rounds> <seed>: per round fresh inputs (1-4), the constructor of a DerivedVariable and one writer per
+// input - a single Set each - released from one barrier (GOMAXPROCS >= 4): the narrow windows inside OnUpdate (between
+// the registration / snapshot under the value mutex and the initial invocation under the execution lock) are only
+// reachable by chance, so the rounds are many and short.  After every round d must equal compute(inputs).
+func stressCtorRace(r *hx.Run, f []string) {
+	fn, rounds, seed := f[2], atoi(f[3]), mustU64(f[4])
+	if runtime.GOMAXPROCS(0) < 4 {
+		runtime.GOMAXPROCS(4)
+	}
+	guarded(r, "DerivedVariable", strings.Join(f, " "), func() (o outcome) {
+		rng := hx.NewRng(seed)
+		fun := fnOf(fn)
+		lastLine, bad, badLine := "", "", ""
+		for round := 0; round < rounds && bad == ""; round++ {
+			n := rng.Range(1, 4)
+			in := make([]reactive.Variable[int], n)
+			inits := make([]int, n)
+			for i := range in {
+				inits[i] = rng.Range(-1, 2)
+				in[i] = reactive.NewVariable[int]().Init(inits[i])
+			}
+			var d reactive.DerivedVariable[int]
+			var ready, wg sync.WaitGroup
+			start := make(chan struct{})
+			spawn := func(job func()) {
+				ready.Add(1)
+				wg.Add(1)
+				go func() {
+					defer wg.Done()
+					ready.Done()
+					<-start
+					job()
+				}()
+			}
+			spawn(func() { d = buildDerived(n, fun, in) })
+			writes := make([]int, n)
+			for i := range in {
+				v := in[i]
+				writes[i] = rng.Range(-1, 2)
+				w := writes[i]
+				spawn(func() { v.Set(w) })
+			}
+			ready.Wait()
+			close(start)
+			wg.Wait()
+			vals := make([]int, n)
+			for i := range in {
+				vals[i] = in[i].Get()
+			}
+			got := d.Get()
+			lastLine = fmt.Sprintf("q dvar %s %s %d", fn, joinInts(vals), got)
+			if exp := fun(vals); exp != got {
+				bad = fmt.Sprintf("round %d: NewDerivedVariable%d over inputs %v racing one Set per input (%v): inputs now %v, compute = %d, DerivedVariable.Get() = %d", round, n, inits, writes, vals, exp, got)
+				badLine = lastLine
+			}
+			d.Unsubscribe()
+		}
+		if badLine != "" {
+			lastLine = badLine
+		}
+		if lastLine != "" {
+			o.lines = append(o.lines, lastLine)
+		}
+		if bad != "" {
+			o.fails = append(o.fails, failure{"derived-variable", strings.Join(f, " ") + ": " + bad,
+				map[string]string{"construct": "DerivedVariable", "trigger": "constructor-race", "mode": "stress"}})
+		}
+
+		return o
+	})
+}
+
 // region eviction: evictors from a barrier ////////////////////////////////////////////////////////////////////////
 
 // stress evictmax <rounds> <evictors> <seed>: per round a fresh EvictionState; events of the slots 0..evictors+1 are
